@@ -225,7 +225,7 @@ void run_case(Rng& rng, std::uint64_t idx)
     });
     ++ctx().evaluations;
     count(std::string("runs_") + names[c.integ]);
-    if (vf_mpi_world_misuse()) { std::uint64_t m = vf_mpi_world_misuse(); vf_mpi_world_misuse() = 0; viol(std::string("library-used-MPI_COMM_WORLD-instead-of-the-communicator-it-was-given:") + names[c.integ], J(info).u("uses", m)); return; }
+    if (std::uint64_t m = vf_mpi_take_misuse()) { viol(std::string("library-used-MPI_COMM_WORLD-instead-of-the-communicator-it-was-given:") + names[c.integ], J(info).u("uses", m)); return; }
     count("collectives_checked", world.collectives);
     count("distinct_schedules_in_run", world.schedules.size());
     if (world.aborted) { viol(std::string("collective-mismatch-or-hang:") + names[c.integ], J(info).s("reason", world.abort_reason)); return; }
